@@ -313,7 +313,25 @@ pub fn detail_method(detail: &str) -> String {
     String::new()
 }
 
+/// "… at /path/to/file.rs:82" -> "file.rs:82"
+pub fn panic_site(detail: &str) -> Option<String> {
+    let at = detail.rfind(" at ")?;
+    let loc = detail[at + 4..].split_whitespace().next()?;
+    let base = loc.rsplit('/').next()?;
+    if base.contains(".rs:") {
+        Some(base.trim_end_matches(|c: char| !c.is_ascii_digit()).to_string())
+    } else {
+        None
+    }
+}
+
 pub fn signature<P: Property>(prop: &P, f: &Found<P::Op>) -> String {
+    if f.v.clause == "panic" || f.v.clause.ends_with(".panic") {
+        if let Some(site) = panic_site(&f.v.detail) {
+            // a panic is identified by where it is raised, not by the operations that led there
+            return format!("{}@{site}", f.v.clause);
+        }
+    }
     let kinds: BTreeSet<String> = f.program.iter().map(|o| prop.kind(o)).collect();
     let m = detail_method(&f.v.detail);
     format!(
